@@ -95,7 +95,7 @@ pub fn run_chunk(args: &[Sx]) -> Sx {
                 _ => unreachable!(),
             };
         }
-        if stack == "bare" {
+        if stack == "bare" || stack == "buf" {
             emit(Sx::L(vec![a("dump"), a(if dump_ok { "ok" } else { "err" })]));
             if dump_ok {
                 emit(Sx::L(vec![a("stored"), hex(&stored)]));
